@@ -456,11 +456,14 @@ def _read_request(
     # Store trace context in contextvar for hook consumption (pipe/subprocess transport)
     tp = custom_metadata.get(TRACEPARENT_KEY) if custom_metadata else None
     if tp is not None:
-        headers: dict[str, str] = {"traceparent": tp.decode()}
-        ts = custom_metadata.get(TRACESTATE_KEY) if custom_metadata else None
-        if ts is not None:
-            headers["tracestate"] = ts.decode()
-        _current_trace_headers.set(headers)
+        # Trace context is advisory: undecodable bytes are dropped, they must
+        # not fail the request (or, on a socket transport, end the connection).
+        with contextlib.suppress(UnicodeDecodeError):
+            headers: dict[str, str] = {"traceparent": tp.decode()}
+            ts = custom_metadata.get(TRACESTATE_KEY) if custom_metadata else None
+            if ts is not None:
+                headers["tracestate"] = ts.decode()
+            _current_trace_headers.set(headers)
     # If the outer batch is an external-location pointer, fetch the
     # referenced bytes and use the inner batch's columns for kwargs.
     # Dispatch metadata (method name, request version, traceparent) is
